@@ -290,7 +290,7 @@ def run_timing_program(spec, steps, out):
                     ctx.set(b.cd.rst, 1)
                 with contextlib.redirect_stdout(buf):
                     try:
-                        ctx.set(b.cd.clk, 1)
+                        ctx.set(b.cd.clk, b.act)
                     except AssertionError as ex:
                         raised = str(ex)
                 effects = ref.clock_edge(rst)
@@ -316,7 +316,7 @@ def run_timing_program(spec, steps, out):
                 return
             if st[0] != "in":
                 with contextlib.redirect_stdout(buf):
-                    ctx.set(b.cd.clk, 0)
+                    ctx.set(b.cd.clk, b.idle)
                     if st[0] == "rst":
                         ctx.set(b.cd.rst, 0)
                 if buf.getvalue() != got_text:
@@ -660,6 +660,9 @@ def run_shard(spec):
             sp0 = g.spec()
             d = sp0.d
             neff = insert_effects(rng, d, sp0.ni + sp0.nc + sp0.ns)
+            if rng.random() < 0.25:
+                d["negedge"] = True
+                out["hist"]["negedge-sync-domain"] = out["hist"].get("negedge-sync-domain", 0) + 1
             sp = S.Spec(d)
             steps = c02.make_stimulus(rng, sp, spec["steps"])
             run_timing_program(sp, steps, out)
